@@ -426,6 +426,10 @@ fn cli_layer(tier: Tier) -> (u64, Vec<(String, Value)>) {
                 if cms != counts {
                     bad.push("--count-matches -v is documented to behave as --count -v".into());
                 }
+                // ... and -c -o as --count-matches, so the two rewrites compose
+                if cos != counts {
+                    bad.push(format!("-c -o -v {:?} != --count -v {:?} (-c -o is --count-matches, --count-matches -v is --count -v)", cos, counts));
+                }
             } else {
                 if cos != cms {
                     bad.push(format!("-c -o {:?} != --count-matches {:?}", cos, cms));
